@@ -525,7 +525,64 @@ def _regex_shape(pattern):
     return prefix, group_ok, suffix, i == len(items)
 
 
+def check_string_probes(program, rep):
+    """A string argument of a description may be empty (""): a transformer
+    that looks at a character of it by index (`arg[0]`) without having
+    established that the string is not empty raises IndexError and the whole
+    load fails; `arg[:1]` / `arg.startswith(..)` are total."""
+    mod = program.modules['desper.model.world']
+    n = 0
+    for fn in [x for x in ast.walk(mod.tree) if isinstance(x, ast.FunctionDef)]:
+        params = {a.arg for a in fn.args.args}
+        strs = {norm(c.args[0]) for c in ast.walk(fn) if isinstance(c, ast.Call)
+                and dotted(c.func) == 'isinstance' and len(c.args) == 2
+                and norm(c.args[1]) == 'str'} & params
+        if not strs:
+            continue
+        parents = {}
+        for p_ in ast.walk(fn):
+            for ch in ast.iter_child_nodes(p_):
+                parents[id(ch)] = p_
+        for sb in ast.walk(fn):
+            if not (isinstance(sb, ast.Subscript) and isinstance(
+                    sb.value, ast.Name) and sb.value.id in strs
+                    and not isinstance(sb.slice, ast.Slice)
+                    and isinstance(sb.slice, (ast.Constant, ast.UnaryOp))):
+                continue
+            n += 1
+            v = sb.value.id
+            guarded = False
+            cur = sb
+            while id(cur) in parents:
+                par = parents[id(cur)]
+                if isinstance(par, ast.BoolOp) and isinstance(par.op, ast.And):
+                    idx = next(i for i, x in enumerate(par.values)
+                               if any(y is cur for y in ast.walk(x)))
+                    if any(norm(x) in (v, f'len({v})', f'len({v}) > 0',
+                                       f"{v} != ''")
+                           for x in par.values[:idx]):
+                        guarded = True
+                if isinstance(par, ast.If) and any(
+                        y is cur for s in par.body for y in ast.walk(s)) \
+                        and norm(par.test) in (v, f'len({v})',
+                                               f'len({v}) > 0', f"{v} != ''"):
+                    guarded = True
+                cur = par
+            rep.check(guarded, 'C15.markers', f'{mod.relpath}:{fn.name}', sb,
+                      'a character of the argument is read only after the '
+                      'string was found non-empty',
+                      f'`{norm(sb)}` is evaluated for every string argument, '
+                      'also the empty string: a description with "" among '
+                      'the arguments of a component or processor fails to '
+                      'load with IndexError', line=sb.lineno)
+    if n == 0:
+        rep.ok('C15.markers', mod.relpath, 'string arguments',
+               'no transformer indexes a character of a string argument',
+               nontrivial=False)
+
+
 def check_markers(program, rep):
+    check_string_probes(program, rep)
     mod = program.modules['desper.model.world']
     site = mod.relpath
     pats = {}
